@@ -91,8 +91,13 @@ pub struct Scratch {
 }
 
 impl Scratch {
+    /// A fresh directory that no earlier run of this process has used: state a
+    /// process keeps per path (in log4rs or below it) cannot leak from one run
+    /// into the next.
     pub fn new(tag: &str) -> Scratch {
-        let root = scratch_base().join(tag);
+        static SEQ: std::sync::atomic::AtomicU64 = std::sync::atomic::AtomicU64::new(0);
+        let n = SEQ.fetch_add(1, std::sync::atomic::Ordering::Relaxed);
+        let root = scratch_base().join(format!("{}{}", tag, n));
         let _ = fs::remove_dir_all(&root);
         fs::create_dir_all(&root).expect("create scratch");
         Scratch { root }
